@@ -132,8 +132,6 @@ func runC01(c *an.Ctx) {
 	if mCall != nil {
 		guardFn = an.StaticCallee(&mCall.Call)
 	}
-	gt := c.T(guardFn)
-	gf := c.F(guardFn)
 	if hasLoop(guardFn) || hasLoop(verify) {
 		c.Undecided("C01.a", "loop-free", "Verify and its mandatory-check function must be loop-free for complete path classification", guardFn, nil, "loop found")
 		return
@@ -150,59 +148,117 @@ func runC01(c *an.Ctx) {
 		mErr = t.Of(mCall)
 	}
 
-	// --- nil-return facts of guardFn (intersection over its nil returns)
+	// --- the guard chain: guardFn and the same-package helpers it hands (p0,p1) to and whose
+	// error it returns as is (`return helper(trstd, untrstd)` / `if err := helper(…); err != nil { return err }`):
+	// a maintainer may split the mandatory checks over several functions; the conditions are then
+	// collected over the whole chain (the helpers see the same two headers in the same roles)
+	chain := []*ssa.Function{guardFn}
+	callIn := map[*ssa.Function]*ssa.Call{} // helper -> its call site in its caller
+	callerOf := map[*ssa.Function]*ssa.Function{}
+	for i := 0; i < len(chain) && len(chain) < 6; i++ {
+		f := chain[i]
+		tf := c.T(f)
+		an.Instrs(f, func(in ssa.Instruction) {
+			call, isCall := in.(*ssa.Call)
+			if !isCall || call.Call.IsInvoke() {
+				return
+			}
+			cal := an.StaticCallee(&call.Call)
+			if cal == nil || cal.Pkg != verify.Pkg || cal.Blocks == nil || !an.IsErrorType(call.Type()) || !argsAreParams(tf, &call.Call) || hasLoop(cal) {
+				return
+			}
+			for _, have := range chain {
+				if have == cal {
+					return
+				}
+			}
+			chain = append(chain, cal)
+			callIn[cal], callerOf[cal] = call, f
+		})
+	}
 	atoms := c01atoms()
 	resolved := make([]an.Fact, len(atoms))
 	haveAtom := make([]bool, len(atoms))
-	for _, cf := range condFacts(gt) {
-		for i, a := range atoms {
-			if f, ok := a.match(cf); ok {
-				resolved[i], haveAtom[i] = f, true
-			}
-		}
-	}
-	var nilFacts an.FactSet
-	first := true
-	nNil := 0
-	for _, r := range gf.Returns() {
-		if gt.ErrShape(errResult(r)) != "nil" {
-			continue
-		}
-		nNil++
-		fs := gf.AtInstr(r)
-		if first {
-			nilFacts = fs
-			first = false
-		} else {
-			var inter an.FactSet
-			for _, f := range nilFacts {
-				if fs.Has(f) {
-					inter = append(inter, f)
+	atomFn := make([]*ssa.Function, len(atoms))
+	for _, f := range chain {
+		for _, cf := range condFacts(c.T(f)) {
+			for i, a := range atoms {
+				if fct, ok := a.match(cf); ok && !haveAtom[i] {
+					resolved[i], haveAtom[i], atomFn[i] = fct, true, f
 				}
 			}
-			nilFacts = inter
 		}
 	}
+	// nilFactsOf(f): facts common to every way f returns nil, including what the helpers it
+	// delegates to guarantee on their own nil returns
+	var nilFactsOf func(f *ssa.Function, depth int) (an.FactSet, int)
+	nilFactsOf = func(f *ssa.Function, depth int) (an.FactSet, int) {
+		tf, ffx := c.T(f), c.F(f)
+		var acc an.FactSet
+		first := true
+		n := 0
+		for _, r := range ffx.Returns() {
+			fs := append(an.FactSet{}, ffx.AtRefined(r.Block())...)
+			sh := tf.ErrShape(errResult(r))
+			delegated := false
+			for _, h := range chain {
+				hc := callIn[h]
+				if hc == nil || callerOf[h] != f || depth > 4 {
+					continue
+				}
+				if sh == "prop("+tf.Of(hc)+")" && !fs.Has(an.NE(tf.Of(hc), "nil")) {
+					// return helper(...): nil exactly when the helper returns nil
+					hf, hn := nilFactsOf(h, depth+1)
+					if hn > 0 {
+						fs = append(fs, hf...)
+						delegated = true
+					}
+				} else if fs.Has(an.EQ(tf.Of(hc), "nil")) {
+					hf, _ := nilFactsOf(h, depth+1)
+					fs = append(fs, hf...)
+				}
+			}
+			if sh != "nil" && !delegated {
+				continue
+			}
+			n++
+			if first {
+				acc, first = fs, false
+				continue
+			}
+			var inter an.FactSet
+			for _, x := range acc {
+				if fs.Has(x) {
+					inter = append(inter, x)
+				}
+			}
+			acc = inter
+		}
+		return acc, n
+	}
+	nilFacts, nNil := nilFactsOf(guardFn, 0)
 	c.Min("C01.a", "nil returns of the mandatory-check function", nNil, 1)
 	for i, a := range atoms {
 		key := "nil-requires-not:" + a.name
 		rule := "Verify returns nil only when NOT (" + a.name + ")"
 		if !haveAtom[i] {
-			c.Fail("C01.a", key, rule, guardFn, nil, "no branch in "+an.FuncName(guardFn)+" tests this condition (guard missing, weakened or re-targeted)", nilFacts)
+			c.Fail("C01.a", key, rule, guardFn, nil, "no branch in "+an.FuncName(guardFn)+" (or the helpers it delegates to) tests this condition (guard missing, weakened or re-targeted)", nilFacts)
 			continue
 		}
-		c.Check(nilFacts.Has(resolved[i].Neg()), "C01.a", key, rule, guardFn, nil,
+		c.Check(nilFacts.Has(resolved[i].Neg()), "C01.a", key, rule, atomFn[i], nil,
 			"required dominating fact "+resolved[i].Neg().String(), nilFacts)
 	}
 
-	// --- each condition alone leads only to its sentinel
+	// --- each condition alone leads only to its sentinel (evaluated in the function of the chain that tests it;
+	// the other conditions tested in that function are assumed false)
 	for i, a := range atoms {
 		if !haveAtom[i] {
 			continue
 		}
+		f := atomFn[i]
 		var assume []an.Fact
 		for j := range atoms {
-			if !haveAtom[j] {
+			if !haveAtom[j] || atomFn[j] != f {
 				continue
 			}
 			if j == i {
@@ -211,26 +267,36 @@ func runC01(c *an.Ctx) {
 				assume = append(assume, resolved[j].Neg())
 			}
 		}
-		pr := gf.Prune(assume...)
+		tf := c.T(f)
+		pr := c.F(f).Prune(assume...)
 		n := 0
 		for _, r := range pr.Returns() {
 			n++
-			sh := unwrapVerifyErr(gt.ErrShape(errResult(r)))
+			sh := unwrapVerifyErr(tf.ErrShape(errResult(r)))
 			ok := sh == "S:"+a.sentinel || sh == "wrap(S:"+a.sentinel+")"
 			c.Check(ok, "C01.a", "row:"+a.name+"→"+a.sentinel,
-				"when only ("+a.name+") holds, the rejection wraps "+a.sentinel, guardFn, r,
+				"when only ("+a.name+") holds, the rejection wraps "+a.sentinel, f, r,
 				"return shape "+sh, pr.AtInstr(r))
 		}
 		if n == 0 {
-			c.Fail("C01.a", "row:"+a.name+"→"+a.sentinel, "when only ("+a.name+") holds, the rejection wraps "+a.sentinel, guardFn, nil, "no reachable return", nil)
+			c.Fail("C01.a", "row:"+a.name+"→"+a.sentinel, "when only ("+a.name+") holds, the rejection wraps "+a.sentinel, f, nil, "no reachable return", nil)
 		}
 	}
 	c.Min("C01.a", "mandatory guard conditions resolved", countTrue(haveAtom), 6)
+	// a helper of the chain is reached only through its call site: what holds there holds in the helper
+	entryFacts := func(f *ssa.Function) an.FactSet {
+		var out an.FactSet
+		for g := f; callIn[g] != nil; g = callerOf[g] {
+			out = append(out, c.F(callerOf[g]).AtRefined(callIn[g].Block())...)
+		}
+		return out
+	}
 
-	// --- C01.b zero before use (guardFn and Verify)
+	// --- C01.b zero before use (the guard chain and Verify)
 	nObs := 0
-	for _, fn := range uniqFns(guardFn, verify) {
+	for _, fn := range uniqFns(append(append([]*ssa.Function{}, chain...), verify)...) {
 		tt, fff := c.T(fn), c.F(fn)
+		entry := entryFacts(fn)
 		an.Instrs(fn, func(in ssa.Instruction) {
 			call, ok := in.(*ssa.Call)
 			if !ok || !call.Call.IsInvoke() || call.Call.Method.Name() == "IsZero" {
@@ -241,9 +307,9 @@ func runC01(c *an.Ctx) {
 				return
 			}
 			nObs++
-			fs := fff.AtInstr(call)
+			fs := append(append(an.FactSet{}, fff.AtInstr(call)...), entry...)
 			if fn == verify && mErr != "" && fs.Has(an.EQ(mErr, "nil")) {
-				fs = append(append(an.FactSet{}, fs...), nilFacts...)
+				fs = append(fs, nilFacts...)
 			}
 			need := []an.Fact{an.NotB("IsZero(" + recv + ")")}
 			// a method call with the other header as argument needs that one non-zero too
